@@ -327,6 +327,8 @@ fn worker(_path: &str) {
 /// cheap), the thirteen fixed sizes plus five more derived from the item for whole proofs.
 fn pools_for(item: &Item, json: &str) -> Vec<usize> {
     match item {
+        // tiny traces: cheap, and the interesting pool sizes are the ones above the trace length
+        Item::Proof { shape } if shape.log_n <= 5 => (1..=64).collect(),
         Item::Proof { .. } => {
             let mut v = POOLS.to_vec();
             let mut h = vf_core::hash_str(json);
@@ -379,6 +381,22 @@ fn item_strategy(tier: Tier) -> BoxedStrategy<Item> {
             }
             Item::Proof { shape: Box::new(s) }
         }),
+        // tiny traces under the largest blowup with a constraint of degree > 64 (constraint-evaluation blowup
+        // 128): batches of the row-parallel loops are then shorter than the blowup, and pools larger than the trace
+        1 => (shape_strategy(&p), 3u32..=5).prop_map(|(mut s, log_n)| {
+            s.log_n = log_n;
+            s.opts.log_blowup = 7;
+            s.degenerate = false;
+            s.rules.truncate(4);
+            if let Some(r) = s.rules.first_mut() {
+                r.kind = 0;
+                r.d_sel = 40001;
+            }
+            if s.hasher >= 3 {
+                s.hasher = 0;
+            }
+            Item::Proof { shape: Box::new(s) }
+        }),
     ]
     .boxed()
 }
@@ -391,7 +409,7 @@ fn label_of(item: &Item) -> String {
         Item::Merkle { log_leaves, .. } => format!("merkle:leaves=2^{log_leaves}"),
         Item::Matrix { log_rows, log_blowup, cols, .. } => format!("matrix:lde-rows=2^{}:cols{}", log_rows + log_blowup, if *cols >= 100 { ">=100" } else { "<100" }),
         Item::Fri { log_n, .. } => format!("fri:n=2^{log_n}"),
-        Item::Proof { shape } => format!("proof:log_n={}", shape.log_n),
+        Item::Proof { shape } => format!("proof:log_n={}{}", shape.log_n, if shape.log_n <= 5 && shape.opts.log_blowup == 7 { ":blowup128" } else { "" }),
     }
 }
 
@@ -403,7 +421,7 @@ fn above_threshold(item: &Item) -> bool {
         Item::Merkle { log_leaves, .. } => *log_leaves > 10,
         Item::Matrix { log_rows, log_blowup, .. } => log_rows + log_blowup >= 7,
         Item::Fri { log_n, .. } => *log_n >= 10,
-        Item::Proof { shape } => shape.log_n >= 9,
+        Item::Proof { shape } => shape.log_n >= 9 || (shape.log_n <= 5 && shape.opts.log_blowup == 7),
     }
 }
 
@@ -430,7 +448,7 @@ impl SubCheck for Conc {
     }
     fn rule(&self) -> String {
         format!(
-            "workload items on both sides of every concurrency threshold: FFT evaluate/interpolate (with offset and blowup)/twiddles at n in {{512,1024,2048,8192}}, power series / batch inversion with zeros / add_in_place / mul_acc at lengths {{1,1023,1024,1025,2047,2048,4096,10000}}, transpose_slice, Merkle trees of 2..4096 leaves (4 hashers), RowMatrix::evaluate_polys_over::<1|2|4|8|16> + row commitments for 1..255 columns x 8..16384 LDE rows (base and extension), apply_drp + hash_values, whole GenAir proofs up to 2^12 (quick) / 2^14 rows (constraint evaluation domains on both sides of 8192); each item is computed serially (build without the feature) and in the concurrent build inside rayon pools of {:?} threads, 2 (quick) / 3 (thorough) repetitions each, and once in pools of every other size 1..64 (whole proofs: five other sizes derived from the item); all digests must be equal (for proofs: context, all commitments, OOD frame; both proofs must verify; nonce and query data exempt); non-trivial = item at or above its concurrency threshold; schedules are sampled, not enumerated",
+            "workload items on both sides of every concurrency threshold: FFT evaluate/interpolate (with offset and blowup)/twiddles at n in {{512,1024,2048,8192}}, power series / batch inversion with zeros / add_in_place / mul_acc at lengths {{1,1023,1024,1025,2047,2048,4096,10000}}, transpose_slice, Merkle trees of 2..4096 leaves (4 hashers), RowMatrix::evaluate_polys_over::<1|2|4|8|16> + row commitments for 1..255 columns x 8..16384 LDE rows (base and extension), apply_drp + hash_values, whole GenAir proofs up to 2^12 (quick) / 2^14 rows (constraint evaluation domains on both sides of 8192) and of 8..32 rows under blowup 128 with a constraint of degree > 64 (every pool size 1..64); each item is computed serially (build without the feature) and in the concurrent build inside rayon pools of {:?} threads, 2 (quick) / 3 (thorough) repetitions each, and once in pools of every other size 1..64 (whole proofs: five other sizes derived from the item); all digests must be equal (for proofs: context, all commitments, OOD frame; both proofs must verify; nonce and query data exempt); non-trivial = item at or above its concurrency threshold; schedules are sampled, not enumerated",
             POOLS
         )
     }
